@@ -217,7 +217,7 @@ def m3(ck, em, rng, nscn, seeds=None):
             C, Rt, U, K = max(C, 2), int(r.choice([8, 20, 40])), int(r.randint(10, 40)), int(r.randint(6, 10))
             tiny = int(r.randint(0, C))
         upd = bool(r.rand() < 0.6)
-        floor = [1e-10, 1e-10, 0.3, 0.8][r.randint(0, 4)]
+        floor = [1e-10, 1e-10, 0.3, 0.8, 3.0][r.randint(0, 5)]      # (3.0 lies above every UBM variance: active everywhere)
         zero_comp = int(r.randint(0, C)) if (C > 1 and r.rand() < 0.25) else None
         direct = bool(r.rand() < 0.5)
         means = r.normal(size=(C, D)) * 2
